@@ -43,7 +43,14 @@ def _log(bound):
     return f"    for i in range(linenum.shape[0]):\n        if end[i] - start[i] <= {bound}:\n            continue\n        data = pd.read_csv(filename, sep=r\"\\s+\", skiprows=start[i], nrows=linenum[i])\n"
 
 
+B = "static/boo.py"
+_Q_OLD = "            Particlesmallqlm = np.zeros(\n                (snapshot.nparticle, 2 * self.l + 1), dtype=np.complex128)\n"
+_Q_ANCHOR = "        for snapshot in self.snapshots.snapshots:\n            Neighborlist = read_neighbors("
+_Q_HOIST = "        Particlesmallqlm = np.zeros((self.snapshots.snapshots[0].nparticle, 2 * self.l + 1), dtype=np.complex128)\n" + _Q_ANCHOR
+
 MUTANTS = [
+    # zero-expected-count rule R-ALIAS: a per-frame array hoisted out of the frame loop and appended every frame
+    dict(id="s3-qlm-hoisted-allocation", props=["C09"], expect="fire", edits=[(B, _Q_OLD, "            Particlesmallqlm[:] = 0\n"), (B, _Q_ANCHOR, _Q_HOIST)], mention="R-ALIAS"),
     # column-vector minimum image: H^T is right, H is wrong
     dict(id="s3-divcurl-column-form-HT", props=["C15", "C07"], expect="silent", file=V, old=_DIV_OLD, new=_div("np.linalg.inv(snapshot.hmatrix.T)", "snapshot.hmatrix.T")),
     dict(id="s3-divcurl-column-form-H", props=["C15"], expect="fire", file=V, old=_DIV_OLD, new=_div("np.linalg.inv(snapshot.hmatrix)", "snapshot.hmatrix"), mention="image"),
